@@ -600,3 +600,6 @@ CHECKS["C09"]["outside"] = CHECKS["C09"]["outside"].replace("the hash value itse
 CHECKS["C04"]["units"].append(py_unit("reads", "reads-C04", ["--props", "C04"]))
 CHECKS["C04"]["explanation"] += " Read side: the transactions listing with expand=effectiveVolumes, as emitted by the real store (with and without a PIT), evaluated on symbolic transactions / moves tables, reports for every listed transaction exactly the (account, asset) pairs it moved, each with the post-commit effective volumes recorded by the transaction's last move (greatest seq) on the pair."
 CHECKS["C04"]["outside"] = CHECKS["C04"]["outside"].replace("Moves.ComputePostCommitEffectiveVolumes and the transaction-level expand", "Moves.ComputePostCommitEffectiveVolumes")
+
+CHECKS["C13"]["units"].append(py_unit("writes", "writes-C13", ["--props", "C13"]))
+CHECKS["C13"]["explanation"] += " SQL link: the ReadLogWithIdempotencyKey statement captured from the real store, evaluated on a symbolic logs table holding logs of several ledgers, returns a log iff THIS ledger holds one with the key, and then that log (the lookup the store model stands for)."
